@@ -270,7 +270,7 @@ func c12GenXfState(g *Gen) {
 		pc.GC, pc.NOut, pc.MinPool, pc.MaxMsg, pc.MaxRec = 0, 1, 64, 400, 500
 		pc.Extract = delExtra
 		pc.Outs = []c12Out{{Env: []int{3}}}
-		n := g.Pick(120, 700)
+		n := g.Pick(260, 700)
 		for j := 0; j < n; j++ {
 			k := r.Intn(1500)
 			sign := "+"
